@@ -363,7 +363,7 @@ def report(mod, tier, seed, total, meta, log=print):
             confirmed.append((fp, v))
             continue
         r = run_case(mod, chk, v['case'])
-        if any(x['clause'] == v['clause'] for x in r.viol):
+        if any(x['clause'] in (v['clause'], 'raised.unexpected') for x in r.viol):
             confirmed.append((fp, v))
         else:
             unstable += 1
